@@ -10,8 +10,74 @@ RULE = ("S->C: Dict_Gen (TLC, BFS) enumerates every insertion order of every key
         "step by step. C->S: the replays and random maps (up to 2000 entries, 21 key types, random and clustered keys, the same pairs put in different orders by Put and through the constructor "
         "NewHashmapE = Orders events, ConfigParams.CloneKeepingSubsetOfKeys on decoded configuration dictionaries = Subset events) are "
         "validated by Dict_Trace: every Put/Get/Enc/Dec/Load is a step of the abstract map, every encoding is a valid Patricia tree "
-        "denoting exactly the map (spec decoder), listings after decode ascend in key bits, all orders give one hash. Non-trivial = "
-        "segment with >= 2 keys; distinct = distinct segments.")
+        "denoting exactly the map (spec decoder), listings after decode ascend in key bits, all orders give one hash. "
+        "Key operations (KeyOps.tla): KeyOps_Gen (TLC) emits per key type (kind, n) - integers of 1..64 bits, byte strings of 8..512 bits, the "
+        "288-bit address key - boundary keys (0, 1, 2, max, max-1, signed min/max and neighbours, -1, -2, top-bit / byte-boundary patterns, "
+        "seeded random keys with top-bit / low-bit neighbours) and the pairs on them; the Go side finds EVERY type of package tlb with "
+        "FixedSize / Equal / Compare by reflection, builds the keys with the library's codec and calls the three methods in both "
+        "directions; KeyOps_Trace judges each call (FixedSize = n = codec width, Equal iff same bits, Compare = sign of the value order: "
+        "numeric, two's complement for signed kinds, byte-wise for bits; ok flags; a key of another type is never equal / comparable). "
+        "14 of the key types the library never instantiates itself (3..63-bit integers, 128/320/352-bit strings) go through the "
+        "dictionary generators and drivers as well. Observations recorded after Dec / Load and judged against the abstract map: "
+        "Values (Keys()/Values() = columns of Items(), HashmapE and plain Hashmap), Count (entry counters walking labels only), Json (one member "
+        "per entry named by the key's text form), Balances (ShardState.AccountBalances over account dictionaries written per block.tlb, decoded "
+        "by ShardAccounts.tla). Non-trivial = segment with >= 2 keys; distinct = distinct segments.")
+
+
+CLS = {"i": "signed_key", "u": "unsigned_key", "b": "bits_key", "a": "address_key"}
+
+
+def keyops(ck):
+    """S->C + C->S for the key operations: TLC generates the pairs, the Go side calls every key type found by reflection, TLC
+    judges every call. Returns (findings, canary_ok, stats); runs beside the dictionary generators."""
+    seedf = os.path.join(ck.work, "keyseed.ndjson")
+    vlib.write_ndjson(seedf, [{"seed": str(ck.seed)}])
+    res = ck.tlc_or_infra("KeyOps_Gen", "gen/KeyOps_Gen_full.cfg" if ck.thorough else "gen/KeyOps_Gen_quick.cfg", files={"keyseed.ndjson": seedf},
+                          workers=2, timeout=900, name="gen_keyops", heap_gb=2)
+    vecs = res.vecs()
+    if len(vecs) != 193:
+        raise Infra("KeyOps_Gen produced %d vectors, expected one per key type (193)" % len(vecs))
+    vp, tp = os.path.join(ck.work, "keyvecs.ndjson"), os.path.join(ck.work, "keyops.ndjson")
+    vlib.write_ndjson(vp, vecs)
+    ck.run_vh(["replay", "C05KEYS", "-in", vp, "-out", tp])
+    evs = vlib.read_ndjson(tp)
+    odd = [e for e in evs if e["k"] in ("Unclassified", "NoVector")]
+    if odd:
+        raise Infra("key types the check cannot place: %s" % json.dumps(odd[:5]))
+    types = {e["type"] for e in evs if e["k"] == "Key"}
+    sizes = {e["type"] for e in evs if e["k"] == "Size"}
+    if len(types) < 100:
+        raise Infra("only %d key-capable types were found by reflection" % len(types))
+    # canaries ride at the end of the same file: a swapped sign, an Equal on unequal keys, FixedSize off by one, a signed
+    # pair of different signs read as unsigned, a dropped ok flag - derived from one recorded signed pair
+    body = [e for e in evs if e["k"] != "End"]
+    bi = next((i for i, e in enumerate(body) if e["k"] == "Key" and e["kind"] == "i" and e["a"][0] != e["b"][0] and e["n"] >= 8), None)
+    if bi is None:
+        raise Infra("no signed-key pair of different signs was recorded")
+    base = body[bi]
+    can = [dict(base, cmp=-base["cmp"], rcmp=-base["rcmp"]), dict(base, eq=True), dict(base, fs=base["fs"] + 1), dict(base, kind="u"), dict(base, rok=False)]
+    vlib.write_ndjson(tp, body + can + [{"k": "End", "events": len(body) + len(can)}])
+    r, rejected = ck.validate_events("KeyOps_Trace", "trace/KeyOps_Trace.cfg", tp, name="keyops", heap_gb=3, timeout=1200)
+    notes = {t[1]: t[2] for t in r.notes}
+    crej = [rj["line"] - len(body) for rj in rejected if rj["line"] > len(body)]
+    rejected = [rj for rj in rejected if rj["line"] <= len(body)]
+    ck.evaluations -= len(can)
+    canary_ok = (bi + 1) not in {rj["line"] for rj in rejected} and crej == [1, 2, 3, 4, 5] and \
+        [notes.get(len(body) + i) for i in range(1, 6)] == ["Compare", "Equal", "FixedSize", "Compare", "Compare-ok"]
+    findings = []
+    for rj in rejected:
+        e = rj["event"]
+        what = notes.get(rj["line"], e.get("op", e["k"]))
+        if what == "input":
+            raise Infra("malformed key-operation event: %s" % json.dumps(e)[:400])
+        findings.append(("C05:keyops:%s%d:%s" % (e.get("kind", "?"), e.get("n", 0), what),
+                         "%s (%s key, %d bits): %s does not hold for a=%s b=%s: FixedSize=%s Equal=%s/%s Compare=(%s,%s)/(%s,%s)%s" % (
+                             e.get("type"), e.get("kind"), e.get("n", 0), what, e.get("a", "")[:80], e.get("b", "")[:80], e.get("fs"), e.get("eq"), e.get("req"),
+                             e.get("cmp"), e.get("ok"), e.get("rcmp"), e.get("rok"), (" error: " + e["err"]) if e.get("err") else ""),
+                         {"kind": "keyops", "event": e}))
+    stats = {"keyops_types": len(types), "keyops_fixed_only_types": len(sizes), "keyops_calls": sum(1 for e in evs if e["k"] in ("Key", "Foreign", "Size")),
+             "keyops_sample": next(({k: e[k] for k in ("type", "a", "b", "fs", "eq", "cmp", "ok")} for e in evs if e["k"] == "Key" and e["kind"] == "i" and e["n"] == 12 and e["a"] != e["b"]), {})}
+    return findings, canary_ok, stats
 
 
 def fkey(seg, ev, kind):
@@ -44,10 +110,19 @@ def run(ck):
         return ck.tlc_or_infra("Dict_Gen", "gen/Dict_Gen_ops_full.cfg" if ck.thorough else "gen/Dict_Gen_ops.cfg", workers=6, timeout=2400, name="gen_ops", heap_gb=8)
     def g2(_):
         return ck.tlc_or_infra("Dict_GenF", "gen/Dict_GenF_full.cfg" if ck.thorough else "gen/Dict_GenF_quick.cfg", workers=6, timeout=2400, name="gen_foreign", heap_gb=8)
-    r1, r2 = vlib.parallel(lambda f: f(0), [g1, g2], n=2)
+    def gk(_):
+        return keyops(ck)
+    r1, r2, rk = vlib.parallel(lambda f: f(0), [g1, g2, gk], n=3)
     ops, foreign = r1.vecs(), r2.vecs()
     if len(ops) < 1000 or len(foreign) < 1000:
         raise Infra("generators produced too few vectors (%d, %d)" % (len(ops), len(foreign)))
+    if not {(v["kind"], v["n"]) for v in ops} >= {("u", 3), ("i", 63), ("b", 128)}:
+        raise Infra("the sample of additional key types is missing from the generated behaviours")
+    kfind, kcanary, kstats = rk
+    for key, what, rp in kfind:
+        ck.report(key, what, rp)
+    ck.extra.update(kstats)
+    ck.canary("key operations: swapped Compare sign / Equal on unequal keys / FixedSize off by one / signed pair read as unsigned / ok flag dropped rejected, original accepted", kcanary)
     if not all(v["selfcheck"] for v in foreign):
         raise Infra("reference dictionary writer fails its own decoder")
     ck.rng.shuffle(ops); ck.rng.shuffle(foreign)
@@ -117,14 +192,8 @@ def run(ck):
     idec = next(i for i, e in enumerate(seg) if e["k"] == "Dec")
     c4 = copy.deepcopy(seg[:idec + 1]); c4[idec]["items"] = list(reversed(c4[idec]["items"]))
     p = os.path.join(ck.work, "canary.ndjson")
-    vlib.write_ndjson(p, c1 + c2 + c3 + c4 + copy.deepcopy(seg) + [{"k": "End"}])
-    st = (ck.states, ck.transitions, ck.traces_ok, ck.evaluations)
-    _, rej = ck.validate_segments("Dict_Trace", "trace/Dict_Trace.cfg", p, name="canary")
-    ck.states, ck.transitions, ck.traces_ok, ck.evaluations = st
-    want = [len(c1), len(c1) + len(c2), None, len(c1) + len(c2) + len(c3) + len(c4)]
-    got = [r["line"] for r in rej]
-    ck.canary("C->S: flipped tree bit / flipped Get value / dropped Put / reversed decode order rejected, original accepted",
-              len(rej) == 4 and got[0] == want[0] and got[1] == want[1] and got[3] == want[3])
+    # (the three groups of canaries below are judged by ONE TLC run over one file: part A, part B, part C)
+    partA = c1 + c2 + c3 + c4 + copy.deepcopy(seg)
     # ConfigParams.CloneKeepingSubsetOfKeys: an id listed twice in the clone / a reversed listing must be rejected
     sub = next((e for tp in dtraces for e in vlib.read_ndjson(tp) if e.get("k") == "Subset" and e["err"] == "" and len(e["items"]) >= 2), None)
     if sub is None:
@@ -133,18 +202,82 @@ def run(ck):
     s1 = copy.deepcopy(sub); s1["items"] = s1["items"] + [s1["items"][-1]]
     s2 = copy.deepcopy(sub); s2["items"] = list(reversed(s2["items"]))
     s3 = copy.deepcopy(sub); s3["items"] = s3["items"][:-1]
-    vlib.write_ndjson(p, [rs, s1, rs, s2, rs, s3, rs, sub, {"k": "End"}])
+    partB = [rs, s1, rs, s2, rs, s3, rs, sub]
+    # observations (Values / Count / Json / Balances): one corrupted copy of each, cut off after the corrupted event
+    def segments(tp):
+        evs = [e for e in vlib.read_ndjson(tp) if e.get("k") != "End"]
+        st = [i for i, e in enumerate(evs) if e["k"] == "Reset"] + [len(evs)]
+        return [evs[a:b] for a, b in zip(st, st[1:])]
+    def pick(seg, kind, good):
+        return next((i for i, e in enumerate(seg) if e["k"] == kind and e.get("err", "") == "" and good(e)), None)
+    oseg = None
+    for tp in dtraces + rtraces:
+        for sg in segments(tp):
+            if sg[0].get("kind") == "b" and sg[0].get("n") == 256 and len(json.dumps(sg)) < 2000000:
+                iv = pick(sg, "Values", lambda e: len(e["vals"]) >= 2 and e["vals"][0] != e["vals"][1])
+                ic = pick(sg, "Count", lambda e: True)
+                ij = pick(sg, "Json", lambda e: len(e["pairs"]) >= 2 and e["pairs"][0][1] != e["pairs"][1][1])
+                ib = pick(sg, "Balances", lambda e: any(it[1] != "0" for it in e["items"]))
+                if None not in (iv, ic, ij, ib):
+                    oseg = (sg, iv, ic, ij, ib)
+                    break
+        if oseg:
+            break
+    if oseg is None:
+        raise Infra("no 256-bit-keyed segment with Values, Count, Json and Balances observations was recorded")
+    sg, iv, ic, ij, ib = oseg
+    o1 = copy.deepcopy(sg[:iv + 1]); o1[iv]["vals"][0], o1[iv]["vals"][1] = o1[iv]["vals"][1], o1[iv]["vals"][0]
+    o2 = copy.deepcopy(sg[:ic + 1]); o2[ic]["count"] += 1
+    o3 = copy.deepcopy(sg[:ij + 1]); o3[ij]["pairs"][0][1] = o3[ij]["pairs"][1][1]
+    o4 = copy.deepcopy(sg[:ij + 1]); o4[ij]["pairs"] = o4[ij]["pairs"][:-1]
+    o5 = copy.deepcopy(sg[:ib + 1]); it = next(x for x in o5[ib]["items"] if x[1] != "0"); it[1] = str(int(it[1]) + 1)
+    o6 = copy.deepcopy(sg[:ib + 1]); o6[ib]["items"] = [x for x in o6[ib]["items"] if x[1] == "0"] + [x for x in o6[ib]["items"] if x[1] != "0"][1:]
+    o7 = copy.deepcopy(sg[:iv + 1]); o7[iv]["keys"] = list(reversed(o7[iv]["keys"])); o7[iv]["vals"] = list(reversed(o7[iv]["vals"]))
+    if "items" in o7[iv]:
+        o7[iv]["items"] = list(reversed(o7[iv]["items"]))
+    partC = o1 + o2 + o3 + o4 + o5 + o6 + o7 + copy.deepcopy(sg)
+    vlib.write_ndjson(p, partA + partB + partC + [{"k": "End"}])
     st = (ck.states, ck.transitions, ck.traces_ok, ck.evaluations)
-    _, rej = ck.validate_segments("Dict_Trace", "trace/Dict_Trace.cfg", p, name="canary_subset")
+    _, rej = ck.validate_segments("Dict_Trace", "trace/Dict_Trace.cfg", p, name="canary")
     ck.states, ck.transitions, ck.traces_ok, ck.evaluations = st
+    lines = [r["line"] for r in rej]
+    gotA = [x for x in lines if x <= len(partA)]
+    gotB = [x - len(partA) for x in lines if len(partA) < x <= len(partA) + len(partB)]
+    gotC = [x - len(partA) - len(partB) for x in lines if x > len(partA) + len(partB)]
+    want = [len(c1), len(c1) + len(c2), None, len(c1) + len(c2) + len(c3) + len(c4)]
+    ck.canary("C->S: flipped tree bit / flipped Get value / dropped Put / reversed decode order rejected, original accepted",
+              len(gotA) == 4 and gotA[0] == want[0] and gotA[1] == want[1] and gotA[3] == want[3])
     ck.canary("C->S: configuration subset listing an id twice / in descending order / with an id missing rejected, original accepted",
-              [r["line"] for r in rej] == [2, 4, 6])
+              gotB == [2, 4, 6])
+    want, tot = [], 0
+    for o in (o1, o2, o3, o4, o5, o6, o7):
+        tot += len(o); want.append(tot)
+    ck.canary("C->S: Values column swapped / Count off by one / Json value moved / Json member dropped / balance changed / existing account dropped / "
+              "fresh listing reversed rejected, original accepted", gotC == want)
     return ck.finish(rule=RULE, distinct=nontrivial)
 
 
 def replay(ck, path):
     ck.build_vh()
     rp = json.load(open(path))["replay"]
+    if rp["kind"] == "keyops":
+        # the recorded pair again through the real key type, judged again by KeyOps_Trace
+        e = rp["event"]
+        vp, tp = os.path.join(ck.work, "kv.ndjson"), os.path.join(ck.work, "kt.ndjson")
+        vals = [e["a"], e["b"]] if "b" in e and e.get("k") != "Foreign" else [e.get("a", "0" * e["n"])]
+        vlib.write_ndjson(vp, [{"kind": e["kind"], "n": e["n"], "vals": vals, "pairs": [[1, len(vals)], [1, 1]]}])
+        ck.run_vh(["replay", "C05KEYS", "-in", vp, "-out", tp])
+        evs = [x for x in vlib.read_ndjson(tp) if x.get("type") == e["type"] or x.get("k") == "End"]
+        evs[-1] = {"k": "End", "events": len(evs) - 1}
+        vlib.write_ndjson(tp, evs)
+        r, rej = ck.validate_events("KeyOps_Trace", "trace/KeyOps_Trace.cfg", tp, name="replay_keyops")
+        notes = {t[1]: t[2] for t in r.notes}
+        for x in rej:
+            print(notes.get(x["line"]), json.dumps(x["event"])[:1000])
+        if rej:
+            print("VIOLATION property=C05 replay=%s" % path)
+            return 1
+        return 0
     if rp["kind"] == "vector":
         vp, tp = os.path.join(ck.work, "v.ndjson"), os.path.join(ck.work, "t.ndjson")
         vlib.write_ndjson(vp, [rp["vector"]])
